@@ -599,6 +599,19 @@ func (f *Facts) evalRef(path []any) Res {
 
 func (sf *StepFacts) pendingStage(stage string) bool {
 	if !sf.Hangs {
+		// A step that never starts (what it needs is never produced) and has not ended any other way
+		// sits waiting until the run is torn down, and is closed then: its closed.result is not ruled
+		// out, it is produced exactly when nothing else ends the run first.
+		if stage == "closed" {
+			ended := false
+			for k := range sf.Out {
+				if strings.HasPrefix(k, "outputs.") || strings.HasPrefix(k, "crashed.") || strings.HasPrefix(k, "deploy_failed.") ||
+					strings.HasPrefix(k, "disabled.") || strings.HasPrefix(k, "failed.") {
+					ended = true
+				}
+			}
+			return !ended
+		}
 		return false
 	}
 	// a step that hangs while running could still finish, crash or be closed
